@@ -14,7 +14,7 @@ def plan(ctx):
     by = {}
     for m in fam:
         by.setdefault(m["kind"], []).append(m)
-    quick.update(m["name"] for m in by["layout_enc"] if m["sb"] in (2, 30, 66, 128) and m["rate"] == ("high" if m["sb"] % 4 else "low"))
+    quick.update(m["name"] for m in by["layout_enc"] if m["sb"] in (2, 30, 66, 128, 194, 320) and m["rate"] == ("high" if m["sb"] % 4 else "low"))
     quick.update(m["name"] for m in rnd.sample(by["layout_work"], 5))
     quick.update(m["name"] for m in rnd.sample([m for m in by["enc_slot"] if m["sb"] <= 66 and m["k"] + m["r"] == 3], 3))
     quick.update(m["name"] for m in rnd.sample([m for m in by["enc_slot"] if m["sb"] == 30 and m["k"] + m["r"] == 5], 1))
@@ -26,7 +26,7 @@ def plan(ctx):
             hs.append(Harness(f"gen::c04g::{m['name']}", "C04",
                               f"shard size {m['sb']}: a fully symbolic shard through the real {m['rate']}-rate encoder (1,1) over the null engine comes back as a recovery shard of exactly {m['sb']} bytes with every symbol slot (nondeterministic slot index) byte-identical: Shards::insert and undo_last_chunk_encoding are inverse",
                               encodes=["Shards::insert", "Shards::undo_last_chunk_encoding", "EncoderWork::recovery (slicing to shard_bytes)", "Shards::resize/index"],
-                              bounds=f"shard size {m['sb']} (B_size covers every tail class up to 3 blocks); unwind 140", flags=FULL, timeout=1500, mem_gb=8,
+                              bounds=f"shard size {m['sb']} (sizes cover every tail class and 0..5 whole blocks)", flags=FULL, timeout=1500, mem_gb=8,
                               symbolic="all shard bytes, the slot index", tiers=tiers))
         elif m["kind"] == "layout_work":
             hs.append(Harness(f"gen::c04g::{m['name']}", "C04",
@@ -48,5 +48,5 @@ def plan(ctx):
     return Plan(hs,
                 assumptions=["SpecEngine contract applied lane by lane (the real engines' lane-locality: C15 checks all 32 lanes of a block independently, mul on 2 blocks; C03 miters)",
                              "same symbols as coding every slot on its own: slot q output = G*x_q is exactly what the 2-byte codec computes (C02)"],
-                outside=["shard sizes beyond 130 bytes (3 blocks)", "slots other than the first/last/block-boundary ones in the slot-independence harnesses (layout harnesses: all slots)", "configurations beyond (3,2)/(2,3)"],
+                outside=["shard sizes beyond 322 bytes for the layout, beyond 130 bytes for slot independence through the codecs", "slots other than the first/last/block-boundary ones in the slot-independence harnesses (layout harnesses: all slots)", "configurations beyond (3,2)/(2,3)"],
                 trusted_base=COMMON_TRUSTED)
